@@ -309,6 +309,25 @@ def reduction_cases(draw, tier):
     return {"A": np.ascontiguousarray(A, dtype=float), "kind": kind, "pattern": pat, "scale_exp": se}
 
 
+@st.composite
+def long_reduction_cases(draw, tier):
+    """Square matrices of order just past the blocking sizes 32 / 64: dense, banded below the diagonal, block triangular."""
+    n = draw(st.sampled_from([33, 40, 64, 65] if tier == "quick" else [33, 40, 64, 65, 100, 129]))
+    A, pat = draw(gen.long_qarray(n, n, draw(st.sampled_from(["generic", "int", "sparse"]))))
+    kind = draw(st.sampled_from(["dense", "dense", "lower_band", "block_tri", "hermitian"]))
+    idx = np.arange(n)
+    if kind == "lower_band":
+        bw = draw(st.sampled_from([1, 2, 5, 31]))
+        A = A * ((idx[:, None] - idx[None, :]) <= bw)[..., None]
+    elif kind == "block_tri":
+        c = draw(st.sampled_from([1, 16, 32, n - 1]))
+        A[c:, :c] = 0.0
+    elif kind == "hermitian":
+        A = gen.make_hermitian(A)
+    se = draw(st.sampled_from([0, 0, -6, 6]))
+    return {"A": np.ascontiguousarray(A * 10.0 ** se), "kind": "long:" + kind, "pattern": pat, "scale_exp": se}
+
+
 def check_generated(case):
     out = run_case(case["A"])
     out.label("kind=" + str(case.get("kind")), "pattern=" + str(case.get("pattern")))
@@ -507,6 +526,8 @@ PROPERTY = Property(
     clauses=[
         Clause("reduction_generated", check_generated, strategy=reduction_cases,
                budget={"quick": 6000, "thorough": 80000}),
+        Clause("reduction_long_dimension", check_generated, strategy=long_reduction_cases, budget={"quick": 16, "thorough": 160},
+               shrink=False),
         Clause("zero_pattern_exhaustive", check_pattern, enumerate=enum_zero_patterns,
                budget={"quick": 0, "thorough": 0}),
         Clause("predicates", check_predicates, strategy=predicate_cases, budget={"quick": 1600, "thorough": 12000}),
